@@ -33,7 +33,7 @@ SYSTEMS = {
     # three bands, wider spectrum, degenerate levels shared between k-points
     "b3": "{[e |-> <<<<<<0, a, 3>>, <<0, b, c>>>>>>, w |-> <<1, 2>>] : a \\in 0..1, b \\in 0..3, c \\in 2..3}",
 }
-ZS = "{<<1, 2>>, <<1, 1>>, <<3, 1>>, <<5, 2>>, <<1, 5>>, <<40, 1>>}"
+ZS = "{<<1, 1>>, <<3, 2>>, <<2, 1>>, <<5, 2>>, <<7, 2>>, <<1, 3>>, <<40, 1>>}"
 PT_INV = ["MachineIsDefinition", "OccBounds", "OccMonotoneLevel", "OccMonotoneMu", "Invariances",
           "EnergyAboveGround", "GroundVariational"]
 GRIDS = [(0, 600, 300), (100, 2100, 1000), (0, 50, 25), (300, 300, 100), (0, 9000, 4500)]
@@ -70,26 +70,47 @@ def mc_model(systems, ys, zs, emit):
     return mc, pt, gs
 
 
+def account(ctx, module, res, note):
+    ctx.states += res.distinct
+    ctx.transitions += res.generated
+    ctx.tlc_runs.append(dict(module=module, cfg=note, **res.summary(), coverage=None))
+
+
 def model(ctx):
-    """TLC: the theorems, and the cases for the replay."""
-    pts, gss = [], []
-    names = list(SYSTEMS) if not ctx.quick else ["k2b2", "s2b2", "s2k2", "b3"]
-    for name in names:
+    """TLC: the theorems (exhaustive over the system families x points), and the cases for the replay."""
+    from concurrent.futures import ThreadPoolExecutor
+
+    def one(task):
+        name, kind = task
         ys = "{2, 3}" if name != "b3" else "{2}"
         mc, pt, gs = mc_model(SYSTEMS[name], ys, ZS, True)
-        res = ctx.tlc("MC_ElectronFE", cfg_text=pt, extra_files={"MC_ElectronFE.tla": mc}, requirement=True, workers=6,
-                      coverage=(name == "s2b2"),
-                      what="ElectronFE.tla: the array loops differ from the definition by levels, or a consequence of the definition fails")
-        rows = printed(res.stdout, "PT")
-        for r in rows:
-            r.append(name)
-        pts += rows
-        res = ctx.tlc("MC_ElectronFE", cfg_text=gs, extra_files={"MC_ElectronFE.tla": mc}, requirement=True, workers=6,
-                      what="ElectronFE.tla: the cumulative filling is not the variational ground state / not invariant")
-        rows = printed(res.stdout, "GS")
-        for r in rows:
-            r.append(name)
-        gss += rows
+        res = tlcmod.run("MC_ElectronFE", cfg_text=pt if kind == "pt" else gs, extra_files={"MC_ElectronFE.tla": mc}, workers=4,
+                         coverage=(name == "b3"))
+        tlcmod.cleanup(res)
+        return name, kind, res
+
+    pts, gss = [], []
+    cov = {}
+    tasks = [(n, k) for n in SYSTEMS for k in ("pt", "gs")]
+    with ThreadPoolExecutor(max_workers=4) as ex:
+        for name, kind, res in ex.map(one, tasks):
+            account(ctx, "MC_ElectronFE", res, "(generated) systems=%s %s" % (name, "points" if kind == "pt" else "ground states"))
+            if res.violated:
+                st = res.trace[-1][1] if res.trace else {}
+                ctx.violation("tlc:ElectronFE:%s" % res.violated,
+                              "ElectronFE.tla: %s fails (the array loops differ from the definition by levels, or a consequence "
+                              "of the definition fails)" % res.violated, dict(systems=name, case=unfreeze(st.get("cs"))))
+            rows = printed(res.stdout, "PT" if kind == "pt" else "GS")
+            for r in rows:
+                r.append(name)
+            (pts if kind == "pt" else gss).extend(rows)
+            if name == "b3":
+                for k, v in res.coverage.items():
+                    cov[k] = cov.get(k, 0) + v[1]
+    ctx.extra["actions_fired(b3)"] = cov
+    for a in ("Row", "Dot", "Judge", "GJudge"):
+        if cov and not cov.get(a):
+            raise tlcmod.MachineryError("x08: action %s never fired (%s)" % (a, cov))
     if len(pts) < 1000 or len(gss) < 300:
         raise tlcmod.MachineryError("x08: TLC emitted %d points, %d ground-state cases" % (len(pts), len(gss)))
     return pts, gss
@@ -107,20 +128,27 @@ def negative_model(ctx):
         ("hole occupation 1 - f", "Occ(y, z, x) == IF x >= 0 THEN Norm(<<z[1], z[1] + z[2] * Pow(y, x)>>)",
          "Occ(y, z, x) == IF x >= 0 THEN Norm(<<z[2] * Pow(y, x), z[1] + z[2] * Pow(y, x)>>)", "OccMonotoneLevel"),
     ]
-    for what, old, new, expect in variants:
+    from concurrent.futures import ThreadPoolExecutor
+
+    def one(v):
+        what, old, new, expect = v
         if old not in base:
             raise tlcmod.MachineryError("x08: negative variant anchor missing: " + what)
-        mod = base.replace(old, new).replace("MODULE ElectronFE", "MODULE ElectronFEBad")
+        tag = "ElectronFEBad%d" % variants.index(v)
+        mod = base.replace(old, new).replace("MODULE ElectronFE", "MODULE " + tag)
         mc, pt, _ = mc_model("(%s) \\cup {[e |-> ee, w |-> <<1, 2>>] : ee \\in [1..1 -> [1..2 -> [1..2 -> 0..1]]]}" % SYSTEMS["s2k2"],
                              "{2}", "{<<1, 1>>, <<3, 1>>}", False)
-        mc = mc.replace("MC_ElectronFE", "MC_ElectronFEBad").replace("EXTENDS ElectronFE", "EXTENDS ElectronFEBad")
-        res = tlcmod.run("MC_ElectronFEBad", cfg_text=pt, extra_files={"MC_ElectronFEBad.tla": mc, "ElectronFEBad.tla": mod},
+        mc = mc.replace("MC_ElectronFE", "MC_" + tag).replace("EXTENDS ElectronFE", "EXTENDS " + tag)
+        res = tlcmod.run("MC_" + tag, cfg_text=pt, extra_files={"MC_%s.tla" % tag: mc, tag + ".tla": mod},
                          workers=2, extra_args=("-continue",))
         tlcmod.cleanup(res)
-        got = sorted(set(n for n, _ in res.violations))
-        demos.append(dict(variant=what, rejected_by=got))
-        if expect not in got:
-            raise tlcmod.MachineryError("x08: wrong variant '%s' is accepted by TLC (violated: %s)" % (what, got))
+        return what, expect, sorted(set(n for n, _ in res.violations))
+
+    with ThreadPoolExecutor(max_workers=3) as ex:
+        for what, expect, got in ex.map(one, variants):
+            demos.append(dict(variant=what, rejected_by=got))
+            if expect not in got:
+                raise tlcmod.MachineryError("x08: wrong variant '%s' is accepted by TLC (violated: %s)" % (what, got))
     ctx.extra["wrong_variants_rejected_by_TLC"] = demos
 
 
@@ -141,7 +169,7 @@ def drive(ctx, pts, gss):
     evs = dict(pt=[], sr=[], iv=[])
     raws = {}
     eid = 0
-    kp, kg = (4, 6) if ctx.quick else (1, 1)
+    kp, kg = (12, 16) if ctx.quick else (2, 2)
 
     def guarded(kind, what, fn):
         try:
@@ -167,7 +195,7 @@ def drive(ctx, pts, gss):
         ctx.count(("sr", json.dumps(gs[1], sort_keys=True), u, grid))
         trs = sorted(gs[5], key=lambda t: json.dumps(t, sort_keys=True))
         for j, tr in enumerate(trs):
-            if ctx.quick and (i + j + ctx.seed) % 2:
+            if ctx.quick and (i + j + ctx.seed) % 3:
                 continue
             T = IV_T[(i + j) % len(IV_T)]
             eid += 1
@@ -278,13 +306,21 @@ def run(ctx):
     pts, gss = model(ctx)
     negative_model(ctx)
     ctx.extra["model_wall_s"] = round(time.time() - t0, 1)
+    dbg = os.environ.get("X08_DEBUG")
+    if dbg:
+        print("model", ctx.extra["model_wall_s"], [(r["module"], r.get("wall_s"), r.get("distinct")) for r in ctx.tlc_runs], flush=True)
     t0 = time.time()
     events, raws = drive(ctx, pts, gss)
     ctx.extra["drive_wall_s"] = round(time.time() - t0, 1)
     ctx.extra["events"] = {k: len(v) for k, v in events.items()}
+    if dbg:
+        print("drive", ctx.extra["drive_wall_s"], ctx.extra["events"], flush=True)
     summary = {}
     for kind in ("pt", "sr", "iv"):
+        t0 = time.time()
         summary[kind] = validate(ctx, kind, events[kind], raws)
+        if dbg:
+            print("validate", kind, round(time.time() - t0, 1), summary[kind], flush=True)
     ctx.extra["failed_judgements"] = summary
     binding_demo(ctx, events)
     worst = {}
